@@ -37,6 +37,18 @@ structure Term where
   extra : List (String × String)
   deriving DecidableEq, Repr, Inhabited
 
+/-- the declared fields of the class, in declaration order (compared with
+    `Term.model_fields` of the code by a table obligation on every run) -/
+def termFieldNames : List String :=
+  ["label", "definition", "name", "uri", "type_of_term", "comment", "see", "subproperty_of",
+   "subclass_of", "domain", "domain_includes", "term_range", "range_includes", "member_of",
+   "instance_of", "equivalent_property", "description", "scope_note"]
+
+/-- the classes of `soundevent.data` with a hand-written `__hash__` (table obligation) -/
+def hashedClasses : List String :=
+  ["ClipPrediction", "Feature", "Note", "SoundEvent", "SoundEventAnnotation", "SoundEventPrediction",
+   "Tag", "Term"]
+
 /-- `soundevent.data.Tag` -/
 structure Tag where
   term : Term
